@@ -46,10 +46,32 @@ def _subst(node, env, labels, end_label):
     return {key: _subst(val, env, labels, end_label) for key, val in node.items()}
 
 
+def _tag(stmts, xid):
+    """marks every statement of an expansion (not those of nested expansions, they are tagged later) with its id"""
+    for s in stmts:
+        if "_x" not in s:
+            s["_x"] = xid
+        for key in ("body", "else"):
+            if isinstance(s.get(key), list):
+                _tag(s[key], xid)
+        for e in s.get("elifs", []) or []:
+            _tag(e["body"], xid)
+        for c in s.get("cases", []) or []:
+            if isinstance(c.get("body"), list):
+                _tag(c["body"], xid)
+        if s.get("k") == "with":
+            s["stmt"]["_x"] = xid
+        if s.get("k") == "for":
+            s["init"]["_x"] = xid
+            s["inc"]["_x"] = xid
+
+
 class Inliner:
     def __init__(self, macros: dict[str, dict]):
         self.macros = macros
         self.n = 0
+        self.expansions: dict[int, dict] = {}
+        self.xstack: list[int] = []
 
     def expand_call(self, call: dict, stack=()) -> list:
         name = call["name"]
@@ -69,7 +91,12 @@ class Inliner:
             return nm + tag
 
         body = _subst(m["body"], env, labels, end)
+        xid = self.n
+        self.expansions[xid] = {"macro": name, "parent": self.xstack[-1] if self.xstack else None, "call": call}
+        _tag(body, xid)
+        self.xstack.append(xid)
         body = self.block(body, stack + (name,))
+        self.xstack.pop()
         return body + [{"k": "label", "name": end}]
 
     def block(self, stmts: list, stack=()) -> list:
@@ -93,9 +120,9 @@ class Inliner:
         return out
 
 
-def inline_program(prog: dict, visible_macros: dict[str, dict]) -> dict:
+def inline_program(prog: dict, visible_macros: dict[str, dict], inliner=None) -> dict:
     """Program in which every macro call is replaced by the macro's body (macros removed)."""
-    inl = Inliner(visible_macros)
+    inl = inliner or Inliner(visible_macros)
     p = {"imports": [], "macros": [], "routines": []}
     for r in prog["routines"]:
         r2 = dict(r)
